@@ -317,8 +317,17 @@ class C16:
                 raise AnalysisError("MockProvider.%s: no tree mutation recognised" % name)
             ev = lambda n: node_has_call(n, "self._register_event($$$)")   # noqa: E731
             # allowed escapes: false edge of `if event:` / `if not without_event:` tests
-            hooks = {n.id for n in g.nodes if n.kind == "test" and (pat.match("event", n.ast) is not None or pat.match("not without_event", n.ast) is not None)}
-            pth = g.reach([m.id for m in muts], lambda n: n is g.exit, avoid=ev, follow=lambda a, b, l: l != "exc" and not (a in hooks and l == "F"))
+            # the caller asked for silence: `event` false / `without_event` true - whichever way the test is spelled
+            hooks = set()
+            for n in g.nodes:
+                if n.kind == "test":
+                    e_, pos = n.ast, True
+                    while isinstance(e_, ast.UnaryOp) and isinstance(e_.op, ast.Not):
+                        e_, pos = e_.operand, not pos
+                    if isinstance(e_, ast.Name) and e_.id in ("event", "without_event"):
+                        silent = e_.id == "without_event"
+                        hooks.add((n.id, "T" if silent == pos else "F"))
+            pth = g.reach([m.id for m in muts], lambda n: n is g.exit, avoid=ev, follow=lambda a, b, l: l != "exc" and (a, l) not in hooks)
             rep.check("C16.P4", "MockProvider.%s" % name, f, pth is None, "%d mutation node(s), all followed by an event" % len(muts),
                       "a change of the mock tree in %s is not followed by an event: the engine never learns about it" % name, witness=describe_path(pth) if pth else None)
         # the event=False exception is used only for the children of a renamed folder
@@ -328,6 +337,36 @@ class C16:
         loud = [n for n in ctx.own_nodes(rn) if isinstance(n, ast.Call) and pat.match("self._rename_single_object($O, $P)", n) is not None]
         rep.check("C16.P4", "MockProvider.rename|parent-event", rn, ok and len(loud) >= 2, "only children are renamed silently; the renamed object itself emits its event",
                   "the renamed object itself is moved without an event (event=False outside the children loop, or the loud rename is gone)")
+
+        # the silent-delete test hook is used by no production call site
+        dl = mk.methods["_delete"]
+        hook = [a.arg for a in dl.node.args.args[2:]] + [a.arg for a in dl.node.args.kwonlyargs]
+        if "without_event" not in hook:
+            raise AnalysisError("MockProvider._delete lost its `without_event` hook (positive control of the hook rule)")
+        for f in ctx.prog.functions.values():
+            if ".tests." in f.module.name:
+                continue
+            for n in ctx.own_nodes(f):
+                if isinstance(n, ast.Call) and isinstance(n.func, ast.Attribute) and n.func.attr == "_delete":
+                    silent = [k for k in n.keywords if k.arg == "without_event" and not (isinstance(k.value, ast.Constant) and not k.value.value)] or \
+                             [a for a in n.args[1:2] if not (isinstance(a, ast.Constant) and not a.value)]
+                    rep.check("C16.P4", "silent-delete|" + stmt_key(f, n), ctx.line(f, n), not silent, "deletes with its event",
+                              "`%s` deletes an object of the mock tree without a delete event: an event-mirroring consumer keeps a phantom live id" % ast.unparse(n), func=f.qname)
+
+    def p3b(self):
+        rep, ctx = self.rep, self.ctx
+        rep.rule("C16.P3b", "the hash cache of the filesystem provider stamps an entry with the modification time read BEFORE the content was hashed: no os.stat is "
+                 "reachable after a content read in _fast_hash_path (a writer racing with the read then always invalidates the entry)", expect_min=1)
+        f = self.fs.methods["_fast_hash_path"]
+        g = ctx.cfg(f)
+        reads = [n for n in g.nodes if node_has_call(n, "get_hash($F)") or node_has_call(n, "self._fast_hash_data($F)") or node_has_call(n, "$F.read($$$)")]
+        stats = [n for n in g.nodes if node_has_call(n, "os.stat($P)") or node_has_call(n, "os.path.getmtime($P)") or node_has_call(n, "os.fstat($P)")]
+        if not reads or not stats:
+            raise AnalysisError("_fast_hash_path: content reads / os.stat not found")
+        pth = g.reach([n.id for n in reads], lambda n: n in stats, follow=NORMAL)
+        rep.check("C16.P3b", "_fast_hash_path|stat-before-read", f, pth is None, "%d stat(s), all before the first content read" % len(stats),
+                  "the modification time stored with the cached hash is read after the content was hashed: a write that lands in between leaves an old hash cached under "
+                  "the new mtime, so info/listdir/hash_oid keep reporting a hash that differs from hash_data of the bytes on disk", witness=describe_path(pth) if pth else None)
 
     # ------------------------------------------------------------------ P5 / P6
     def p5_p6(self):
@@ -427,6 +466,7 @@ def run(ctx: Ctx, rep: Report, tier: str):
     c.p2()
     c.p3()
     c.p4()
+    c.p3b()
     c.p5_p6()
     c.p7()
     c.p8()
